@@ -1,4 +1,4 @@
 SPECIFICATION Spec
-CONSTANTS Kinds <- KindsDef  MaxLen = 3
+CONSTANTS Kinds <- KindsDef  MaxLen = 3  Seqs <- AllSeqs
 INVARIANTS DescentMeetsGrammar PositionInside
 CHECK_DEADLOCK FALSE
